@@ -57,7 +57,7 @@ type c10 struct {
 }
 
 func (c *c10) aloneRun(call Call) Outcome {
-	k := fmt.Sprintf("%s|%d|%d|%d|%v", call.Tmpl, call.FaultProbe, call.FaultProbe2, call.FaultWrite, call.Data)
+	k := fmt.Sprintf("%s|%d|%d|%d|%d|%v", call.Tmpl, call.FaultProbe, call.FaultProbe2, call.FaultWrite, call.FaultKind, call.Data)
 	if o, ok := c.alone[k]; ok {
 		return o
 	}
@@ -99,6 +99,17 @@ func RunC10(env *sim.Env) {
 		}
 		tmpls[p] = tt
 	}
+	// every file of the world is hashed (included/imported/extended templates are parsed templates too)
+	for _, p := range sim.SortedKeys(world.Files) {
+		if _, ok := tmpls[p]; ok {
+			continue
+		}
+		var tt *jet.Template
+		var err error
+		if pc := sim.Guard(func() { tt, err = set.GetTemplate(p) }); pc == nil && err == nil {
+			tmpls[p] = tt
+		}
+	}
 	before := map[string]uint64{}
 	for p, tt := range tmpls {
 		before[p] = HashTemplate(tt)
@@ -122,6 +133,9 @@ func RunC10(env *sim.Env) {
 		}
 		if o.Probes.Fired {
 			env.Stat("fault:function_panics_with_error", int64(o.Probes.NFired))
+		}
+		if o.Panic != nil {
+			env.Stat("fault:function_dies_with_non_error_panic", 1)
 		}
 		if o.Probes.NFired > 1 {
 			env.Stat("probe:two_failures_in_one_execution", 1)
@@ -166,11 +180,16 @@ func RunC10(env *sim.Env) {
 			continue
 		}
 		// fault points: every dynamic probe call and every write (capped, evenly thinned)
-		type fp struct{ probe, write, probe2 int }
+		type fp struct{ probe, write, probe2, kind int }
 		var fps []fp
 		nDouble := 0
 		for k := 1; k <= nProbe; k++ {
 			fps = append(fps, fp{probe: k})
+			// the function may also die with something Execute re-raises (a string panic, a Go
+			// runtime error): the caller recovers it, and later executions must not notice
+			if k%3 == 1 {
+				fps = append(fps, fp{probe: k, kind: 1 + (k/3)%2})
+			}
 			// second-level faults: calls that only happen (or still happen) after the first failure,
 			// e.g. inside the catch body it led to - the catch body fails too
 			if nDouble < 8 {
@@ -206,7 +225,7 @@ func RunC10(env *sim.Env) {
 		for _, f := range fps {
 			for _, follow := range targets {
 				before := pools.RtReusedAfterFail
-				exec(Call{Tmpl: m, Data: d, FaultProbe: f.probe, FaultProbe2: f.probe2, FaultWrite: f.write})
+				exec(Call{Tmpl: m, Data: d, FaultProbe: f.probe, FaultProbe2: f.probe2, FaultWrite: f.write, FaultKind: f.kind})
 				fd := d
 				if follow != m && t.Choose(2) == 1 {
 					fd = data2
